@@ -120,6 +120,7 @@ func bindShapes(r *rand.Rand, only []string) []shapeBinding {
 
 type onEventer interface {
 	OnEvent(eventName string, handler any)
+	OnceEvent(eventName string, handler any)
 }
 
 func main() {
@@ -263,13 +264,65 @@ func runCell(run *vk.Run, c cell) {
 		run.Violation(vk.Violation{Sub: sub, Fields: fields, What: what, Witness: witness(wit)})
 	}
 
+	var finalMu sync.Mutex
+	var finalChecks []func()
+	var finalDeadline time.Time
 	register := func(sock onEventer, rec *recorder, dir string, client int) {
 		for _, b := range bindings {
 			b := b
 			ft := reflect.FuncOf([]reflect.Type{intType, b.shape.Type}, nil, false)
+			// further handlers of the same event name: a third On handler, a Once handler registered before any event
+			// arrives, and an On handler that the primary handler registers while the first event is being dispatched.
+			// Each is handed an event at most once and intact; the Once handler gets exactly one event if any arrived.
+			var primaryCalls, onceCalls atomic.Int32
+			extra := func(label string, calls *atomic.Int32) any {
+				var mu sync.Mutex
+				seen := map[int]int{}
+				return reflect.MakeFunc(ft, func(args []reflect.Value) []reflect.Value {
+					uid := int(args[0].Int())
+					got := refcodec.Digest(gen.CanonOf(args[1].Interface()))
+					if calls != nil {
+						calls.Add(1)
+					}
+					rec.mu.Lock()
+					em := rec.emitted[uid]
+					rec.mu.Unlock()
+					mu.Lock()
+					seen[uid]++
+					n := seen[uid]
+					mu.Unlock()
+					if em != nil && em.event == b.event && em.digest != got {
+						report("corruption", map[string]any{"dir": dir, "shape": b.shape.Name, "size_class": sizeClass(em.size), "handler": label},
+							fmt.Sprintf("uid %d (%s, size %d) arrived altered at the %s handler registered for %q", uid, b.shape.Name, em.size, label, b.event), map[string]any{"uid": uid})
+					}
+					if n == 2 {
+						report("duplicate", map[string]any{"dir": dir, "shape": b.shape.Name, "handler": label}, fmt.Sprintf("uid %d delivered twice to the %s handler", uid, label), map[string]any{"uid": uid})
+					}
+					return nil
+				}).Interface()
+			}
+			var lateOnce sync.Once
+			registerLate := func() { lateOnce.Do(func() { sock.OnEvent(b.event, extra("late", nil)) }) }
+			finalMu.Lock()
+			finalChecks = append(finalChecks, func() {
+				// the handlers of one event run one after the other: the primary one (which the completion counter
+				// watches) returns before the Once handler of the same event has been entered
+				if primaryCalls.Load() > 0 {
+					if left := time.Until(finalDeadline); left > 0 { // one budget for all bindings of the cell
+						vk.WaitUntil(left, func() bool { return onceCalls.Load() >= 1 })
+					}
+				}
+				if p, o := primaryCalls.Load(), onceCalls.Load(); p > 0 && o != 1 {
+					report("once-handler", map[string]any{"dir": dir, "calls": fmt.Sprint(min(int(o), 2))},
+						fmt.Sprintf("event %q: %d event(s) reached the handlers registered with OnEvent, but the handler registered with OnceEvent before any of them ran %d time(s) (another handler of this name was registered while the first event was being dispatched)", b.event, p, o), nil)
+				}
+			})
+			finalMu.Unlock()
 			h := reflect.MakeFunc(ft, func(args []reflect.Value) []reflect.Value {
 				uid := int(args[0].Int())
 				got := refcodec.Digest(gen.CanonOf(args[1].Interface()))
+				primaryCalls.Add(1)
+				registerLate()
 				rec.mu.Lock()
 				em := rec.emitted[uid]
 				rec.received[uid]++
@@ -317,6 +370,8 @@ func runCell(run *vk.Run, c cell) {
 				return nil
 			})
 			sock.OnEvent(b.event, h2.Interface())
+			sock.OnEvent(b.event, extra("third", nil))
+			sock.OnceEvent(b.event, extra("once", &onceCalls))
 			for _, d := range b.decoy {
 				d := d
 				sock.OnEvent(d, reflect.MakeFunc(reflect.FuncOf(nil, nil, false), func([]reflect.Value) []reflect.Value {
@@ -485,6 +540,14 @@ func runCell(run *vk.Run, c cell) {
 	elapsed := time.Since(start)
 	faults := w.Faults()
 	w.ExpectLifecycle()
+	if complete {
+		finalMu.Lock()
+		finalDeadline = time.Now().Add(10 * time.Second)
+		for _, f := range finalChecks {
+			f()
+		}
+		finalMu.Unlock()
+	}
 
 	delivered := 0
 	for ci := range recs {
